@@ -120,7 +120,7 @@ def run(ck, facts, tier, only=None):
         lower = Sym("m", "to_lowercase", vkey(name), ())
         parts = Sym("m", "collect", vkey(Sym("m", "split", vkey(lower), (vkey(Sym("lit", "|")),))), ())
         n = Poly.atom(("len", parts.key(), None))
-        part = lambda i: Poly.atom(("call", "index", (vkey(parts), Poly.const(i).key())))
+        part = lambda i: Sym("at", vkey(parts), Poly.const(i).key())       # parts[i]: element i of the collected pieces (strings)
         mk = lambda settle: Sym("ctor", "Ok", Rec(NC, {"name": lower, "union_cal": Rec(UC, {"calendars": Sym("parse_cals", vkey(part(0))), "settlement_calendars": settle})}))
         gt2 = paths.lit(cel.cmp_sym("Gt", n, Poly.const(2), True))
         eq1 = paths.lit(cel.cmp_sym("Eq", n, Poly.const(1)))
